@@ -20,6 +20,13 @@ def theorems_of(prop_file):
     return [prefix + n for n in re.findall(r"^theorem\s+(\S+)", src, flags=re.M)]
 
 
+def prop_modules(pid):
+    """Props/<pid>.lean plus any Props/<pid><Suffix>.lean (e.g. C19Container)."""
+    d = os.path.join(LEAN_DIR, "BadsProofs", "Props")
+    out = [f[:-5] for f in sorted(os.listdir(d)) if f.endswith(".lean") and re.fullmatch(pid + r"[A-Za-z]*", f[:-5])]
+    return out
+
+
 def lean_sources():
     out = []
     for root, _, files in os.walk(LEAN_DIR):
@@ -59,7 +66,7 @@ def build(pid, extra_targets=()):
         return res
     prop_file = os.path.join(LEAN_DIR, "BadsProofs", "Props", f"{pid}.lean")
     if os.path.exists(prop_file):
-        targets = [f"BadsProofs.Props.{pid}"] + list(extra_targets)
+        targets = [f"BadsProofs.Props.{m}" for m in prop_modules(pid)] + list(extra_targets)
         rc, out, dt = lake(["build"] + targets)
         res["log"] += out[-3000:]
         if rc != 0:
@@ -76,13 +83,16 @@ def audit(pid):
     """`#print axioms` on every theorem of Props/<pid>.lean.
 
     Returns (obligations, discharged, bad: {thm: reason}, axioms_used: sorted list)."""
-    prop_file = os.path.join(LEAN_DIR, "BadsProofs", "Props", f"{pid}.lean")
-    thms = theorems_of(prop_file)
+    mods = prop_modules(pid)
+    thms = []
+    for m in mods:
+        thms += theorems_of(os.path.join(LEAN_DIR, "BadsProofs", "Props", f"{m}.lean"))
     adir = os.path.join(LEAN_DIR, ".lake", "audit")
     os.makedirs(adir, exist_ok=True)
     afile = os.path.join(adir, f"Audit{pid}.lean")
     with open(afile, "w") as f:
-        f.write(f"import BadsProofs.Props.{pid}\n")
+        for m in mods:
+            f.write(f"import BadsProofs.Props.{m}\n")
         for t in thms:
             f.write(f"#print axioms {t}\n")
     p = subprocess.run(["lake", "env", "lean", afile], cwd=LEAN_DIR, stdout=subprocess.PIPE, stderr=subprocess.STDOUT, text=True, timeout=1200)
